@@ -143,6 +143,8 @@ type Scenario struct {
 	Assume map[string]bool
 	// ZeroRecv: slice fields of the receiver that the scenario does not define are empty (fresh object).
 	ZeroRecv bool
+	// ConcreteCopy: builtin copy between slices of known length moves the known element values.
+	ConcreteCopy bool
 	// NoDefaultInline switches off the default (unexported helpers of the root function's package are evaluated in place).
 	NoDefaultInline bool
 	// InlineGo evaluates the body of `go f()` in place when f is inlinable.
@@ -390,6 +392,28 @@ func constSV(c *ssa.Const) SV {
 	return symOpaque(c.Value.ExactString())
 }
 
+var elemOfSliceRe = regexp.MustCompile(`^(.*\[\d*:\d*\])\[(\d+)\]$`)
+
+// lookupElem finds element i of the slice described by desc: under the description itself, or under any of the
+// objects it was cut from (x[a:b][c:d] -> x[a:b] -> x), adding the lower bounds on the way.
+func lookupElem(st *symState, desc string, i int64) (SV, bool) {
+	for k := 0; k < 8; k++ {
+		if v, ok := st.heap[fmt.Sprintf("%s[%d]", desc, i)]; ok {
+			return v, true
+		}
+		m := anySliceRe.FindStringSubmatch(desc)
+		if m == nil {
+			return SV{}, false
+		}
+		var lo int64
+		if m[2] != "" {
+			fmt.Sscan(m[2], &lo)
+		}
+		desc, i = m[1], i+lo
+	}
+	return SV{}, false
+}
+
 func isCellAddr(d string) bool { return strings.HasPrefix(d, "cell:") || strings.HasPrefix(d, "new ") }
 
 func (ev *symEval) load(fr *symFrame, st *symState, addr SV, t types.Type) SV {
@@ -417,6 +441,14 @@ func (ev *symEval) load(fr *symFrame, st *symState, addr SV, t types.Type) SV {
 			}
 		}
 		return v
+	}
+	if m := elemOfSliceRe.FindStringSubmatch(addr.Desc); m != nil {
+		// an element of a sub-slice x[a:b][k]: the element a+k of the object it was cut from
+		var k int64
+		fmt.Sscan(m[2], &k)
+		if v, ok := lookupElem(st, m[1], k); ok {
+			return v
+		}
 	}
 	if i := strings.LastIndex(addr.Desc, "."); i > 0 {
 		// field of a struct variable that was assigned as a whole: what the source object holds
@@ -883,27 +915,55 @@ func (ev *symEval) doCall(fr *symFrame, st *symState, x *ssa.Call) ([]outcome, b
 			return outs, true
 		}
 	}
+	if id == "builtin copy" && len(args) == 2 && args[0].Len != nil && args[0].Len.Known && args[1].Len != nil && args[1].Len.Known && ev.sc.Call == nil {
+		_ = 0
+	}
+	if id == "builtin copy" && len(args) == 2 && args[0].Len != nil && args[0].Len.Known && args[1].Len != nil && args[1].Len.Known && ev.sc.ConcreteCopy {
+		// concrete copy: the known elements of the source become elements of the destination's object
+		st.trace = append(st.trace, ev.callEvent(fr, "call", x))
+		n := args[0].Len.N
+		if args[1].Len.N < n {
+			n = args[1].Len.N
+		}
+		dbase, doff := sliceBase(args[0].Desc)
+		for i := int64(0); i < n; i++ {
+			v, ok := lookupElem(st, args[1].Desc, i)
+			if !ok && args[1].K == "str" && args[1].Known && i < int64(len(args[1].S)) {
+				v, ok = symInt(int64(args[1].S[i])), true
+			}
+			if ok {
+				st.heap[fmt.Sprintf("%s[%d]", dbase, doff+i)] = v
+			} else {
+				delete(st.heap, fmt.Sprintf("%s[%d]", dbase, doff+i))
+			}
+		}
+		fr.env[x] = symInt(n)
+		return nil, false
+	}
 	if id == "builtin append" && len(args) == 2 && args[0].Len != nil && args[0].Len.Known && args[1].Len != nil && args[1].Len.Known {
 		// concrete append: the result is a fresh slice whose elements are tracked in the heap
 		e := ev.callEvent(fr, "call", x)
 		st.trace = append(st.trace, e)
 		n0, n1 := args[0].Len.N, args[1].Len.N
 		name := ev.fresh("append")
-		for i := int64(0); i < n0; i++ {
-			src := fmt.Sprintf("%s[%d]", args[0].Desc, i)
-			if v, ok := st.heap[src]; ok {
-				st.heap[fmt.Sprintf("%s[%d]", name, i)] = v
-			} else {
-				st.heap[fmt.Sprintf("%s[%d]", name, i)] = symOpaque(src)
+		// an element of a (sub-)slice: under the slice's own description, or in the object it was cut from
+		elem := func(a SV, i int64) (SV, string) {
+			src := fmt.Sprintf("%s[%d]", a.Desc, i)
+			if v, ok := lookupElem(st, a.Desc, i); ok {
+				return v, src
 			}
+			if a.K == "str" && a.Known && i < int64(len(a.S)) {
+				return symInt(int64(a.S[i])), src
+			}
+			return symOpaque(src), src
+		}
+		for i := int64(0); i < n0; i++ {
+			v, _ := elem(args[0], i)
+			st.heap[fmt.Sprintf("%s[%d]", name, i)] = v
 		}
 		for i := int64(0); i < n1; i++ {
-			src := fmt.Sprintf("%s[%d]", args[1].Desc, i)
-			if v, ok := st.heap[src]; ok {
-				st.heap[fmt.Sprintf("%s[%d]", name, i+n0)] = v
-			} else {
-				st.heap[fmt.Sprintf("%s[%d]", name, i+n0)] = symOpaque(src)
-			}
+			v, _ := elem(args[1], i)
+			st.heap[fmt.Sprintf("%s[%d]", name, i+n0)] = v
 		}
 		l := symInt(n0 + n1)
 		fr.env[x] = SV{K: "slice", Desc: name, Len: &l, Known: true}
@@ -1119,6 +1179,19 @@ func (ev *symEval) evalValue(fr *symFrame, st *symState, v ssa.Value) SV {
 		if x.High != nil {
 			h := ev.val(fr, x.High)
 			hi, hiv = h.Desc, &h
+		}
+		if base.K == "str" && base.Known && (lov == nil || (lov.K == "int" && lov.Known)) && (hiv == nil || (hiv.K == "int" && hiv.Known)) {
+			// a known string cut at known positions is a known string
+			l2, h2 := int64(0), int64(len(base.S))
+			if lov != nil {
+				l2 = lov.N
+			}
+			if hiv != nil {
+				h2 = hiv.N
+			}
+			if 0 <= l2 && l2 <= h2 && h2 <= int64(len(base.S)) {
+				return symStr(base.S[l2:h2])
+			}
 		}
 		r := SV{K: "slice", Desc: base.Desc + "[" + lo + ":" + hi + "]"}
 		if base.K == "str" {
